@@ -18,6 +18,9 @@ R2.12 a schema that declares properties is never rendered as a TypeAlias (the al
 R2.16 sibling inline property schemas get distinct invented names (the parent prefix is dropped only after looking at the sibling keys)   [= R19.10]
 R2.17 a name made up for an inline schema is tested against the declared schema names before it is used as registry key
 R2.18 the cycle tracker's exit removes the schema from the stack and completes it unconditionally (no false cycles -> no empty placeholders)  [= R8.5]
+R2.19 a reference wrapped in `allOf` with annotations only is resolved like the bare reference (property positions)
+R2.20 the type inferred for a node with `allOf` follows its members (an allOf over an enum / array is not an object)                    [finding]
+R2.21 the made-up name of an inline property schema is tied to its document node (name -> node record on the context, identity compared)
 R2.15 writer / reader agreement on registry keys: the key a raw name is registered under is recorded, and $ref resolution / build_schemas
       find a schema through that index (no second parse of a schema whose sanitised name differs from its declared name)
 R2.14 the sanitised key a schema is registered under is tested against the declared names (it never shadows another declared schema)
@@ -125,6 +128,9 @@ def run(repo: Repo, rep: Report, tier: str) -> None:
 
     rule_sibling_names_are_distinct(repo, rep, "R2.16")
     rule_invented_names_avoid_declared(repo, rep, "R2.17")
+    rule_annotated_reference(repo, rep, "R2.19")
+    rule_invented_names_are_per_node(repo, rep, "R2.21")
+    rule_allof_type_follows_members(repo, rep, "R2.20")
     # R2.18: leaving a schema always takes it off the tracker's stack and completes it, wherever it sits: a schema left "in progress" makes a
     # later inline reference to it look like a cycle, and the finished schema is then replaced by the empty placeholder (the replacement
     # itself is the known finding R2.1)                                                                                       [= R8.5]
@@ -962,3 +968,95 @@ def rule_invented_names_avoid_declared(repo: Repo, rep, rule: str = "R2.17") -> 
                               "inline position is typed with the declared schema", fn.loc(c))
     rep.count(f"{rule}:made_up_names", n)
     rep.require(n >= 3, f"{rule}: only {n} made-up schema names found in schema_parser (floor 3)")
+
+
+# ------------------------------------------------------------------------------------------------ R2.19 / R2.20 a reference wrapped in allOf keeps the kind of its target
+def rule_annotated_reference(repo: Repo, rep, rule: str = "R2.19") -> None:
+    """`status: {allOf: [{$ref: Status}], description: ...}` is how OpenAPI 3.0 documents describe (or make nullable) a reference; NestJS,
+    FastAPI, springdoc and drf-spectacular emit it for every enum-typed property.  Parsed like any other inline schema it becomes a schema of
+    its own with type `object` (R2.20) and no properties: a dataclass without fields, whatever the target is (enum, array, primitive).  In a
+    property position the wrapper must be resolved like the bare reference: the property loop resolves `<node>["allOf"][0]["$ref"]`."""
+    sp = repo.module("core.parsing.schema_parser")
+    pp = sp.functions.get("_parse_properties")
+    if pp is None:
+        raise AnalysisError(f"{rule}: anchor vanished: _parse_properties")
+    fn = pp
+    refs = [c for c in calls_in(fn.node) if isinstance(c.func, ast.Name) and c.func.id == "_resolve_ref" and c.args]
+    rep.require(len(refs) >= 1, f"{rule}: no `_resolve_ref(...)` call in the property loop (anchor)")
+    through_allof = [c for c in refs if any(isinstance(x, ast.Constant) and x.value == "allOf" for x in ast.walk(c.args[0]))]
+    sub = f"{sp.relpath}:_parse_properties `allOf: [{{$ref: X}}]` with annotations only"
+    if through_allof:
+        rep.ok(rule, sub, "resolved like the bare reference to X", pp.loc(through_allof[0]))
+    else:
+        rep.violation(rule, sub, f"{pp.fq}|annotated-reference-parsed-as-object",
+                      "a described / nullable reference written as `allOf: [{$ref: X}]` is parsed as an inline schema of its own: it is registered as `<Parent><Prop>` with type "
+                      "`object` and no properties, so a property that refers to an enum or an array is typed with a dataclass without fields and a conforming value cannot be decoded",
+                      pp.loc(refs[0]) if refs else pp.loc())
+
+
+def rule_allof_type_follows_members(repo: Repo, rep, rule: str = "R2.20") -> None:
+    """`_parse_schema` gives a schema without `type` the type `object` as soon as the node has an `allOf` - also when the members are an enum,
+    an array or a primitive (`StatusAlias: {allOf: [{$ref: Status}]}`): the declared alias is emitted as a dataclass without fields."""
+    sp = repo.module("core.parsing.schema_parser")
+    ps = sp.functions.get("_parse_schema")
+    if ps is None:
+        raise AnalysisError(f"{rule}: anchor vanished: _parse_schema")
+    from sa.cfg import CFG, guards
+
+    cfg = CFG(ps.node)
+    dom = cfg.dominators()
+    L = Locals(ps.node)
+    hits = []
+    for n in cfg.nodes:
+        if n.kind == "stmt" and isinstance(n.ast, ast.Assign) and len(n.ast.targets) == 1 and isinstance(n.ast.targets[0], ast.Name) and "type" in n.ast.targets[0].id \
+                and isinstance(n.ast.value, ast.Constant) and n.ast.value.value == "object":
+            gs = [g for g, pol in guards(cfg, n.id, dom) if g.kind == "test" and pol is True and any(isinstance(x, ast.Constant) and x.value == "allOf" for x in ast.walk(g.ast))]
+            for g in gs:
+                looks_at_members = any(isinstance(x, ast.Attribute) and x.attr in ("type", "enum", "items") for x in ast.walk(L.inline(g.ast, stop=tuple(L.params))))
+                hits.append((n, g, looks_at_members))
+    rep.require(bool(hits), f"{rule}: the `\"allOf\" in <node>` -> type `object` inference of _parse_schema was not found (anchor)")
+    for n, g, ok in hits:
+        sub = f"{sp.relpath}:_parse_schema type inferred for a node with `allOf`"
+        if ok:
+            rep.ok(rule, sub, "the inference looks at the kinds of the members", ps.loc(n.ast))
+        else:
+            rep.violation(rule, sub, f"{ps.fq}|allof-means-object",
+                          f"`{norm(g.ast)[:70]}` -> `object`, whatever the members are: a declared `StatusAlias: {{allOf: [{{$ref: Status}}]}}` over an enum (or an array / primitive) "
+                          "becomes a dataclass without fields, and a conforming value (`open`) cannot be decoded", ps.loc(n.ast))
+        break
+
+
+# ------------------------------------------------------------------------------------------------ R2.21 two inline schemas never share a made-up name
+def rule_invented_names_are_per_node(repo: Repo, rep, rule: str = "R2.21") -> None:
+    """Made-up names are not injective: `Order` + `item_status` and `OrderItem` + `status` both read `OrderItemStatus`, and below an anonymous
+    allOf / oneOf member the name is the property key alone (`Cat` and `Dog`, each `allOf: [Pet, {properties: {details: {...}}}]`, both make up
+    `Details`).  `_parse_schema` answers a name it has seen with the schema it built first, so the second inline schema silently gets the
+    first one's model.  The names of inline *property* schemas must therefore be tied to the document node they were made up for: the helper
+    that vets the name is handed the node, keeps a name -> node record on the context and compares identities."""
+    sp = repo.module("core.parsing.schema_parser")
+    pp = sp.functions.get("_parse_properties")
+    if pp is None:
+        raise AnalysisError(f"{rule}: anchor vanished: _parse_properties")
+    helpers = {q: f for q, f in sp.functions.items() if "." not in q and f.params and _tests_declared_names(f.node, f.params[0])}
+    rep.require(bool(helpers), f"{rule}: the helper that tests made-up names against the declared names was not found (anchor, see R2.17)")
+    per_node = {}
+    for q, f in helpers.items():
+        ps = f.params
+        keeps_record = any(isinstance(st, ast.Assign) and any(isinstance(t, ast.Subscript) and isinstance(t.value, ast.Attribute) for t in st.targets)
+                           and isinstance(st.value, ast.Name) and st.value.id in ps for st in own_nodes(f.node))
+        compares = any(isinstance(c, ast.Compare) and isinstance(c.ops[0], (ast.Is, ast.IsNot, ast.Eq, ast.NotEq)) and any(isinstance(x, ast.Name) and x.id in ps[1:] for x in ast.walk(c))
+                       and any(isinstance(x, ast.Call) and isinstance(x.func, ast.Attribute) and x.func.attr == "get" for x in ast.walk(c)) for c in ast.walk(f.node))
+        per_node[q] = keeps_record and compares
+    calls = [c for c in calls_in(pp.node) if isinstance(c.func, ast.Name) and c.func.id in helpers]
+    rep.require(len(calls) >= 2, f"{rule}: only {len(calls)} made-up property schema names are vetted in _parse_properties (floor 2)")
+    for c in calls:
+        sub = f"{sp.relpath}:_parse_properties `{norm(c)[:60]}`"
+        node_args = [a for a in c.args[2:]] + [k.value for k in c.keywords if k.arg not in (None,) and k.arg != "context"]
+        passes_node = any(not (isinstance(a, ast.Constant) and a.value is None) for a in node_args)
+        if per_node.get(c.func.id) and passes_node:
+            rep.ok(rule, sub, "the name is tied to the document node it was made up for (a different node gets a numbered name)", pp.loc(c))
+        else:
+            rep.violation(rule, sub, f"{pp.fq}|made-up-name-not-tied-to-node|{norm(c.args[0])[:40] if c.args else ''}",
+                          "the made-up name is only tested against the declared names: two different inline schemas that read the same (`Order.item_status` / `OrderItem.status`; "
+                          "`details` in two allOf members) are one registry entry - the second property is typed with the first one's model and its own values cannot be decoded",
+                          pp.loc(c))
